@@ -190,7 +190,7 @@ func (g *rlGen) graph(depth int) *rlGraph {
 		kind := "node"
 		if !prevMulti {
 			switch r := g.rng.Intn(10); {
-			case r < 4:
+			case r < 4 && !(i == 0 && out.Kind == "workflow"): // a Workflow cannot begin with a branch ("start node not set")
 				kind = "branch"
 			case r < 6:
 				kind = "parallel"
@@ -767,7 +767,7 @@ func runLoopCase(ctx context.Context, rep *mon.Reporter, rng *mon.Rand, nfault i
 	}
 }
 
-var rlDos = []string{"error", "panic-string", "panic-error", "panic-nil-deref", "panic-struct", "panic-string", "panic-error"}
+var rlDos = []string{"error", "error", "panic-string", "panic-error", "panic-nil-deref", "panic-struct", "panic-string"}
 
 func rlRun(ctx context.Context, rep *mon.Reporter, rng *mon.Rand, spec *rlGraph, r compose.Runnable[rlM, rlM], us []rlUnit, site *rlSite) {
 	var fault *rlFault
